@@ -449,6 +449,19 @@ def r8_combiners_keep_both(run, F):
                 raise CannotAnalyse("R8-COMBINERS-KEEP-BOTH: %s joins two results in a form other than one match on the pair" % name)
             run.ob("R8-COMBINERS-KEEP-BOTH", name + "|joined", len(pair_matches) >= 1, F.where(b),
                    "%s takes %d results and examines them together in one match on the pair (found %d such matches)" % (name, len(res_params), len(pair_matches)))
+        if p.split(" as ")[0].startswith("<std::vec::Vec<") and p.endswith("alpha::resolver::Resolvable>::resolve"):
+            # the list of statements / declarations / members: every element is resolved and every error list is kept.  Collecting
+            # an iterator of results into one Result (FromIterator, try_fold, `?` in a loop) stops at the first element that fails:
+            # the E400 / E420 / E8xx planted in a later statement of the same list would never be reported.
+            n += 1
+            stops = [x for x in walk(b["hir"]) if (x.get("k") == "MethodCall" and x.get("name") in ("collect", "try_fold", "try_for_each", "sum", "product", "find_map", "map_while", "take_while") and
+                                                    (is_res(x.get("t")) or x.get("name") in ("map_while", "take_while", "find_map")))
+                     or (x.get("k") == "Match" and "Try" in str(x.get("msrc")))]
+            run.ob("R8-COMBINERS-KEEP-BOTH", "Vec<T>::resolve|every element", not stops, F.where(b, stops[0]) if stops else F.where(b),
+                   "the list resolver visits every element and keeps every error list: no short-circuiting adaptor (collect into a Result, try_fold, "
+                   "take_while, `?`) -- found %s" % sorted(set(x.get("name") or "?" for x in stops)))
+            if not stops and not pair_matches:
+                raise CannotAnalyse("R8-COMBINERS-KEEP-BOTH: the list resolver joins its element results in a form other than one match on the pair")
         for m in pair_matches:
             n += 1
             both = None
@@ -497,7 +510,7 @@ def r8_combiners_keep_both(run, F):
         res = [x for x in walk(b["hir"]) if x.get("k") == "MethodCall" and x.get("name") == "resolve"]
         run.ob("R8-COMBINERS-KEEP-BOTH", "%d-tuple|one resolve" % width, len(res) == 1, F.where(b, res[1]) if len(res) > 1 else F.where(b),
                "the %d-tuple resolves all its parts in one `.resolve()` on nested pairs (found %d calls): the errors of all parts are reported together" % (width, len(res)))
-    run.floor("R8-COMBINERS-KEEP-BOTH", 18, "obligations on the four places where two results are joined (combine, accumulate, Vec fold, pair)")
+    run.floor("R8-COMBINERS-KEEP-BOTH", 19, "obligations on the four places where two results are joined (combine, accumulate, Vec fold, pair)")
 
 
 def check(run):
